@@ -262,6 +262,9 @@ loop:
 	}
 
 	c = b[0]
+	// hf is reused from field to field: the never-indexed mark belongs to the
+	// field it was decoded from, not to the ones that follow it.
+	hf.sensible = false
 
 	switch {
 	// Indexed Header Field.
